@@ -83,7 +83,18 @@ def structure_rules(ctx):
     else:
         w = apply_closure(S[2][0][2], (("elem", ("dummy",)),)) if S[2][0][0] == "map" else None
         if w != ("field", ("elem", ("dummy",)), "count"):
-            probs.append("the total S is not the sum of the centroid counts")
+            # the sum may run over the (mean, centroid) pairs of the sort buffer: |t| t.1.count
+            w2 = apply_closure(S[2][0][2], (elem_of(S[2][0][1]),)) if S[2][0][0] == "map" else None
+            pair_ok = False
+            if S[2][0][0] == "map":
+                X_ = S[2][0][1]
+                X_ = X_[2][0] if (X_[0] == "call" and X_[1].endswith("collect")) else X_
+                if X_[0] == "map":
+                    pr_ = elem_of(X_)
+                    w3 = apply_closure(S[2][0][2], (pr_,))
+                    pair_ok = pr_[0] == "tuple" and len(pr_[1]) == 2 and w3 == ("field", pr_[1][1], "count") and pr_[1][1][0] == "elem"
+            if not pair_ok and not (w2 is not None and w2[0] == "field" and w2[2] == "count" and w2[1][0] == "elem"):
+                probs.append("the total S is not the sum of the centroid counts")
         new_q0 = mk("Add", q0_lv, mk("Div", ("field", cur_lv, "count"), S))
         u0 = carried[q0][1]
         alts0 = set(map(repr, u0[1])) if u0[0] == "phi" else {repr(u0)}
@@ -100,6 +111,14 @@ def structure_rules(ctx):
         for l, (init, upd) in carried.items():
             if upd[0] == "elem":
                 nxt = upd
+        if nxt is None:
+            # the loop item of a lazy projection (`pending.into_iter().map(|t| t.1)`): the item term of the loop's iterator
+            for l in range(len(mg.locals)):
+                if tb.defined_in_loop(l, h) and tb.loop_update(l, h) == ("clobber", l):
+                    it_ = tb.loop_init(l, h)
+                    cand = elem_of(it_[1] if it_[0] == "rest" else it_)
+                    if any(upd == cand for _, (init, upd) in carried.items()):
+                        nxt = cand
         crit = mk("Le", mk("Add", q0_lv, mk("Div", mk("Add", ("field", cur_lv, "count"), ("field", nxt, "count")), S)), ql_lv) if nxt else None
         found = False
         body = mg.natural_loop(h)
@@ -140,6 +159,12 @@ def structure_rules(ctx):
         if a[1][0] == "closure":
             c = apply_closure(a[1], (("p", 1), ("p", 2)))
             cmp_ok = any(s_[0] == "call" and s_[1].endswith("partial_cmp") and s_[2] == (("tfield", ("p", 1), 0), ("tfield", ("p", 2), 0)) for s_ in subterms(c))
+        if not key_ok and not cmp_ok and a[1][0] == "closure":
+            # the centroids themselves are sorted, the comparator takes the means: |c1, c2| c1.mean().partial_cmp(&c2.mean())
+            c = apply_closure(a[1], (("p", 1), ("p", 2)))
+            mean_ = lambda z: mk("Div", ("field", z, "sum"), ("field", z, "count"))
+            if any(s_[0] == "call" and s_[1].endswith("partial_cmp") and s_[2] == (mean_(("p", 1)), mean_(("p", 2))) for s_ in subterms(c)):
+                key_ok = cmp_ok = True
         if not key_ok:
             probs.append("the sort key is not the centroid mean (sum / count)")
         if not cmp_ok:
